@@ -23,6 +23,9 @@ CHECKS = {
     'C01': {'engine': 'verus+kani+regexeq', 'design_ref': 'DESIGN.md §5 C01', 'technique': 'deductive verification: Verus contracts on extracted frame.rs + codec lemmas; Kani contract discharge for checksum/parse_hex; regex DFA equivalence',
             'text': 'Unbounded proof: to_bytes == enc, to_bytes_with_newline == enc+CRLF, from_bytes == dec (for every byte string), Data type invariant len <= 255, lemmas dec(enc(f)) == Ok(f) with and without CRLF, format and sum-to-zero lemma. The capacity self-checks and the chunks/map/collect pipeline are covered by bounded Kani stand-ins only (listed separately in the evidence).',
             'note': TB_VERUS + ' ' + TB_KANI + ' regex crate implements its pattern; exact Vec::with_capacity.'},
+    'C02': {'engine': 'verus+kani+regexeq', 'design_ref': 'DESIGN.md §5 C02', 'technique': 'deductive verification: Verus lemmas over the codec specification (all single-fault corruptions), carried to the real code by the contracts of to_bytes / from_bytes',
+            'text': 'Unbounded proof, for every frame and both terminator variants: every single substitution (every position x every byte), deletion, duplication, adjacent transposition of unequal characters and proper prefix decodes to the original frame or is rejected; an accepted string always has matching length and checksum. No assume/admit in the lemmas.',
+            'note': TB_VERUS + ' ' + TB_KANI + ' regex crate implements its pattern.'},
     'C03': {'engine': 'verus+kani+regexeq', 'design_ref': 'DESIGN.md §5 C03', 'technique': 'deductive verification: from_bytes == reference decoder dec() as a Verus postcondition; regex DFA equivalence; re-encode lemma',
             'text': 'Unbounded proof that the real from_bytes returns exactly the independent Intel-HEX reader dec() for every byte string (totality: every unwrap/index/cast proved safe; classification and precedence of the three rejection classes with the reported counts/values), that the regex in /repo accepts exactly the documented language (all 256 byte values, any length), and lemma_reencode.',
             'note': TB_VERUS + ' ' + TB_KANI + ' regex crate implements its pattern (bounded native differential run backs this).'},
